@@ -8,11 +8,11 @@
 //!     hashes (incl. the original), number of decodes that verify)
 //! `tok <unit|u64|node> <token>*`
 //!     -> `OK <decoded header> | <tokens of its re-encoding>` or `ERR`
-use std::collections::BTreeSet;
+use std::collections::{BTreeSet, HashSet};
 
 use p2panda::operation::Extensions as NodeExt;
 use p2panda_core::cbor::{decode_cbor, encode_cbor};
-use p2panda_core::{Extensions, Hash, Header};
+use p2panda_core::{Extensions, Hash, Header, Timestamp};
 
 use crate::tok::{self, Canon, Tok};
 
@@ -109,7 +109,25 @@ pub fn node_ext(kind: &str, args: &[&str]) -> Result<NodeExt, String> {
     decode_cbor::<NodeExt, _>(&tok::emit(&toks)[..]).map_err(|e| format!("{e:?}"))
 }
 
-fn observe<E: ExtShow>(mut header: Header<E>, k: usize) -> String {
+/// Build a causal Node extensions value locally, the way its author would (repo hook
+/// `Extensions::verif_causal`): the hashes are inserted into a fresh `HashSet` in the order given.
+pub fn causal_ext_local(args: &[&str]) -> NodeExt {
+    let log = hash_of(args[0]);
+    let ts: u64 = args[1].parse().expect("ts");
+    let mut previous: HashSet<Hash> = HashSet::new();
+    for h in &args[2..] {
+        previous.insert(hash_of(h));
+    }
+    NodeExt::verif_causal(log, Timestamp::new(ts), previous)
+}
+
+fn observe<E: ExtShow>(header: Header<E>, k: usize) -> String {
+    observe_with(header, k, true)
+}
+
+/// `wire_ok`: the extensions value was also obtained by decoding a peer's bytes and is equal
+/// to the locally built one (part of `rt`).
+fn observe_with<E: ExtShow>(mut header: Header<E>, k: usize, wire_ok: bool) -> String {
     header.sign(&tok::key(k));
     let canon = Canon { sig: header.signature.map(|s| s.to_bytes().to_vec()) };
     let bytes = header.to_bytes();
@@ -121,7 +139,7 @@ fn observe<E: ExtShow>(mut header: Header<E>, k: usize) -> String {
     };
     let first: Result<Header<E>, _> = decode_cbor(&bytes[..]);
     let (rt, ver) = match &first {
-        Ok(d) => (*d == header && stable, d.verify()),
+        Ok(d) => (*d == header && stable && wire_ok, d.verify()),
         Err(_) => (false, false),
     };
     let (mut nenc, mut nhash, mut nver) = (0, 0, 0);
@@ -174,10 +192,18 @@ fn hdr(w: &[&str]) -> String {
     match ext {
         "unit" => observe(build!(()), k),
         "u64" => observe(build!(w[7].parse::<u64>().expect("u64")), k),
-        "basic" | "causal" => match node_ext(ext, &w[7..]) {
+        "basic" => match node_ext(ext, &w[7..]) {
             Ok(e) => observe(build!(e), k),
             Err(e) => format!("EXTERR {e}"),
         },
+        "causal" => {
+            // built locally by the author (any number of `previous` hashes) and, independently,
+            // received as a remote peer's bytes (elements in the order of the case line): both
+            // must be the same value
+            let local = causal_ext_local(&w[7..]);
+            let wire_ok = matches!(node_ext(ext, &w[7..]), Ok(e) if e == local);
+            observe_with(build!(local), k, wire_ok)
+        }
         _ => "BADCASE".into(),
     }
 }
